@@ -1,6 +1,10 @@
 """C26 — static file serving never leaves its root (tornado.web.StaticFileHandler)."""
 import atexit, logging, os, re, shutil, sys
 from core.wire import atom, line, parse_reply, Atom
+import mimetypes
+import tornado.web, tornado.httpserver     # imported before the workers fork
+from core import vloop, faketransport
+mimetypes.init()
 
 ID = "C26"
 LEAN_TARGETS = ["TornadoModel.C26.Props"]
@@ -41,7 +45,7 @@ CLAUSES = {
     "sibling directories sharing the root's name prefix are excluded": "sibling_excluded + prefix_is_containment",
 }
 PARALLEL = True
-CASE_TIMEOUT = 20
+CASE_TIMEOUT = 120
 LEVEL_NOTE = "symlinks, case-insensitive and Windows filesystems are outside the model (tie only on a POSIX fixture tree)"
 
 VERIF = os.path.dirname(os.path.dirname(os.path.dirname(os.path.abspath(__file__))))
